@@ -74,13 +74,29 @@ def check_C14(ctx, unit):
                         idx[l.d["d"]] = m
             # pairing of local tables with local capacities via the allocation size
             pair = {"this._table": "this._capacity"}
+            from .ir import value_leaves
+            bm_ = f.bind_map()
             for did, init in inits.items():
                 v = init.strip()
+                # (the allocation may sit in a folded helper: `new_table = _allocate_table(new_capacity)`)
+                lv_ = value_leaves(f, init)
+                if len(lv_) == 1:
+                    v = lv_[0].strip()
+                    hops_ = 0
+                    while v.kind in ("CStyleCastExpr", "CXXStaticCastExpr", "CXXReinterpretCastExpr", "ImplicitCastExpr", "ParenExpr") and v.children and hops_ < 6:
+                        v, hops_ = v.children[0].strip(), hops_ + 1
+                    v = RA.resolve_local(f, v).strip()
+                    hops_ = 0
+                    while v.kind in ("CStyleCastExpr", "CXXStaticCastExpr", "CXXReinterpretCastExpr", "ImplicitCastExpr", "ParenExpr") and v.children and hops_ < 6:
+                        v, hops_ = v.children[0].strip(), hops_ + 1
                 if v.kind == "CXXMemberCallExpr" and v.callee and v.callee["n"] == "allocate" and v.args:
                     sz = v.args[0].strip()
                     if sz.kind == "BinaryOperator" and sz.op == "*":
                         for side in sz.children:
                             s2 = side.strip()
+                            hops_ = 0
+                            while s2.kind == "DeclRefExpr" and s2.d.get("d") in bm_ and hops_ < 6:
+                                s2, hops_ = std_unwrap(f.node(bm_[s2.d["d"]])), hops_ + 1
                             if s2.kind == "DeclRefExpr" and s2.get("local"):
                                 nm = [x for x in f.all_nodes() if x.kind == "DeclStmt" for d in x.get("decls", []) if d["d"] == did]
                                 pair[canon(_declref(f, did))] = canon(s2)
@@ -558,3 +574,61 @@ def check_next_after_relink(ctx, unit, rule="K.next-after-relink", cls="frg::has
                  "every link is read before the node is relinked", f)
     if n_inst == 0:
         raise AnalysisBroken("anchor vanished: no chain walk in %s" % cls)
+
+
+def check_end_sentinel(ctx, unit, rule="K.end-sentinel-agrees"):
+    """Sibling agreement on the past-the-end position.  hash_map builds past-the-end iterators in several places (end(), end()
+    const, begin() of an empty map, whatever else constructs an iterator with a null item) and operator++ arrives at one when
+    the buckets are exhausted; iteration terminates only if all of them designate the SAME bucket value, because iterators
+    are compared by (bucket, item)."""
+    from .rules_attr import _is_null
+    ctx.rule(rule, "hash_map: every place that builds a past-the-end iterator (null item) uses one and the same bucket value, and "
+             "operator++ leaves that value behind when the buckets are exhausted", 2)
+
+    def norm(x):
+        x = std_unwrap(x)
+        hops = 0
+        while x.kind in ("ImplicitCastExpr", "CStyleCastExpr", "CXXStaticCastExpr", "CXXFunctionalCastExpr", "ParenExpr") and x.children and hops < 6:
+            x, hops = x.children[0].strip(), hops + 1
+        c = x.cv()
+        if c is not None:
+            return "constant %d" % c
+        p = path(x)
+        if p:
+            return str(p[-1]).split("#")[0]
+        return canon(x)
+    for rec in recs_of(unit, MAP):
+        fns = cls_fns(unit, rec["qn"])
+        its = [f for f in unit.functions if (f.owner_cls or "").startswith(MAP + "::") and f.qn.startswith(rec["qn"] + "::")]
+        sites = []
+        for f in fns + its:
+            for n in f.all_nodes():
+                if n.kind in ("CXXTemporaryObjectExpr", "CXXConstructExpr") and n.callee and "iterator" in (n.callee.get("cls") or n.callee.get("uq") or ""):
+                    a = n.args if hasattr(n, "args") else []
+                    if len(a) == 3 and _is_null(a[2]):
+                        sites.append((f, n, norm(a[1])))
+        if len(sites) < 1:
+            raise AnalysisBroken("anchor vanished: past-the-end iterator constructions of %s (found %d)" % (rec["qn"], len(sites)))
+        vals = sorted({s[2] for s in sites})
+        for f, n, v in sites:
+            ctx.inst(rule, "%s: iterator with a null item at %s" % (f.sig, n.loc.split("/")[-1]), len(vals) == 1, n.loc,
+                     "bucket %s; the past-the-end constructions use %s" % (v, " / ".join(vals)), f)
+        incs = [f for f in its if f.name == "operator++"]
+        if not incs:
+            raise AnalysisBroken("anchor vanished: operator++ of the iterators of %s" % rec["qn"])
+        for f in incs:
+            assigned, compared = [], []
+            for n in f.all_nodes():
+                if n.kind == "BinaryOperator" and n.op == "=" and (path(n.children[0]) or ("",))[-1] == "bucket":
+                    assigned.append(norm(n.children[1]))
+                if n.kind == "BinaryOperator" and n.op in ("==", "!=", "<", "<=", ">", ">="):
+                    ps = [(path(c) or ("",))[-1] for c in n.children]
+                    if "bucket" in ps:
+                        compared.append(norm(n.children[1 - ps.index("bucket")]))
+            if assigned:
+                ok = all(a in vals for a in assigned) and len(vals) == 1
+                why = "assigns bucket = %s" % " / ".join(sorted(set(assigned)))
+            else:
+                ok = len(vals) == 1 and vals[0] in compared
+                why = "stops where bucket meets %s" % " / ".join(sorted(set(compared)))
+            ctx.inst(rule, "%s: exhausted" % f.sig, ok, f.loc, "%s; past-the-end is bucket %s" % (why, " / ".join(vals)), f)
